@@ -20,7 +20,7 @@ ID = "C04"
 RULE = (
     "grids {mixed patch, antimeridian strip with nodes on +-180, fan with a node exactly on the south pole, patch with nodes on lon 0 and 1e-9 / 1e-6 degrees from "
     "the north pole, cube} x provenance axes {nodes: lonlat | xyz | both} x {face centres: none | lonlat | xyz | both} x {edge centres: none | lonlat | xyz | both} x "
-    "{longitudes -180..180 | 0..360} x {radius 1 | 6371} with <= k deviations from the default vector x every ordered pair of first accesses among the 15 coordinate "
+    "{longitudes -180..180 | 0..360} x {radius 1 | 6371 | integer-typed xyz} with <= k deviations from the default vector x every ordered pair of first accesses among the 15 coordinate "
     "properties (plus 10 prefixes containing the public recomputation construct_face_centers('cartesian average'), after which, for sources that supplied centres, only the agreement of the two systems, ranges and unit length after normalisation are judged for faces) x normalize_cartesian_coordinates() at position {never, first, between, last}. non-trivial = provenance vector with >= 1 deviation or a node at a "
     "pole / on a meridian of interest; distinct = (grid, provenance, access prefix, normalize position)"
 )
@@ -30,9 +30,9 @@ ASSUMPTIONS = [
     "supplied centres are compared with what was supplied, derived centres with the normalised mean of the corner unit vectors (edge centre: arc midpoint)",
     "derived Cartesian coordinates must have unit length (1e-12); after normalize_cartesian_coordinates() all Cartesian coordinates have unit length and unchanged direction (1e-12)",
 ]
-BOUNDS = {"quick": "5 grids, provenance deviations <= 2 (57 vectors), access prefixes: all 15 singles + 40 pairs, normalize at 4 positions", "thorough": "7 grids (also a polar cap with nodes 0.2 degrees from the south pole and a kilometre-scale patch across the antimeridian), provenance deviations <= 3, all 225 ordered pairs"}
+BOUNDS = {"quick": "6 grids (the axis-aligned cube also with integer-typed xyz), provenance deviations <= 2 (57 vectors), access prefixes: all 15 singles + 40 pairs, normalize at 4 positions", "thorough": "8 grids (also a polar cap with nodes 0.2 degrees from the south pole and a kilometre-scale patch across the antimeridian), provenance deviations <= 3, all 225 ordered pairs"}
 PROPS = ["node_lon", "node_lat", "node_x", "node_y", "node_z", "edge_lon", "edge_lat", "edge_x", "edge_y", "edge_z", "face_lon", "face_lat", "face_x", "face_y", "face_z"]
-AXES = [("nodes", ["lonlat", "xyz", "both"]), ("faces", ["none", "lonlat", "xyz", "both"]), ("edges", ["none", "lonlat", "xyz", "both"]), ("lon", ["pm180", "0-360"]), ("radius", [1.0, 6371.0])]
+AXES = [("nodes", ["lonlat", "xyz", "both"]), ("faces", ["none", "lonlat", "xyz", "both"]), ("edges", ["none", "lonlat", "xyz", "both"]), ("lon", ["pm180", "0-360"]), ("radius", [1.0, 6371.0, "int"])]  # int: Cartesian node coordinates stored as integers (axis-aligned cube only: (+-1, +-1, +-1))
 
 
 def _near_pole_patch():
@@ -43,10 +43,13 @@ def _near_pole_patch():
 
 
 def _mesh(name):
+    if name == "intcube":
+        # axis-aligned cube: nodes are (+-1, +-1, +-1)/sqrt(3), i.e. exact small-integer vectors of equal length
+        return meshes.cube().transform(meshes.rot_axis((0, 0, 1), -10.0), "intcube")
     return _near_pole_patch() if name == "nearpole" else meshes.get(name)
 
 
-GRIDS = ["mixedpatch", "amstrip", "polefan", "nearpole", "cube"]
+GRIDS = ["mixedpatch", "amstrip", "polefan", "nearpole", "cube", "intcube"]
 
 
 def _vectors(k):
@@ -73,6 +76,20 @@ def _source(m, vec):
     # the positions the source describes are those of the (lon, lat) doubles it supplies (asin near a pole loses
     # 1e-8 rad, so the mesh's own vectors are not used as the reference)
     P = sph.ll2xyz(lon, lat)
+    intmode = radius == "int"
+    if intmode:
+        # integer-typed Cartesian coordinates: only meaningful where xyz alone describes the position
+        # (and only for meshes whose nodes are exact small-integer vectors of EQUAL length, e.g. the cube's (+-1, +-1, +-1):
+        # rounding arbitrary positions to integers would give corners of different lengths, for which "mean of the corner unit
+        # vectors" and the library's mean of the raw vectors legitimately differ -- not this property's domain)
+        if nodes != "xyz" or fcs in ("xyz", "both") or ecs in ("xyz", "both"):
+            return None
+        k = 1.0 / float(np.abs(P).max())
+        if np.abs(P * k - np.rint(P * k)).max() > 1e-9:
+            return None
+        Pint = np.rint(P * k).astype(np.int64)
+        P = sph.unit(Pint.astype(float))
+        radius = 1.0
     if lonc == "0-360":
         lon = lon % 360.0
     E = conn.edge_model(m.faces)
@@ -88,7 +105,7 @@ def _source(m, vec):
         ds["node_lat"] = (("n_node",), lat.copy())
     if nodes in ("xyz", "both"):
         for i, c in enumerate("xyz"):
-            ds["node_" + c] = (("n_node",), P[:, i] * radius)
+            ds["node_" + c] = (("n_node",), Pint[:, i].copy() if intmode else P[:, i] * radius)
     ds["face_node_connectivity"] = (("n_face", "n_max_face_nodes"), m.table())
     sup["node"] = P
     if fcs != "none":
@@ -99,8 +116,11 @@ def _source(m, vec):
             ds["face_lon"] = (("n_face",), flon)
             ds["face_lat"] = (("n_face",), flat)
         if fcs in ("xyz", "both"):
+            if intmode:
+                fci = np.rint(fc * 1000.0).astype(np.int64)
+                fc = sph.unit(fci.astype(float))
             for i, c in enumerate("xyz"):
-                ds["face_" + c] = (("n_face",), fc[:, i] * radius)
+                ds["face_" + c] = (("n_face",), fci[:, i].copy() if intmode else fc[:, i] * radius)
         sup["face"] = fc
     if ecs != "none":
         ds["edge_node_connectivity"] = (("n_edge", "two"), en)
@@ -111,8 +131,11 @@ def _source(m, vec):
             ds["edge_lon"] = (("n_edge",), elon)
             ds["edge_lat"] = (("n_edge",), elat)
         if ecs in ("xyz", "both"):
+            if intmode:
+                eci = np.rint(ec * 1000.0).astype(np.int64)
+                ec = sph.unit(eci.astype(float))
             for i, c in enumerate("xyz"):
-                ds["edge_" + c] = (("n_edge",), ec[:, i] * radius)
+                ds["edge_" + c] = (("n_edge",), eci[:, i].copy() if intmode else ec[:, i] * radius)
         sup["edge"] = ec
     g = ux.Grid.from_dataset(ds, source_grid_spec="UGRID")
     return g, sup, P
@@ -231,12 +254,15 @@ def run_case(case):
                 focus = dict(case, only=foc)
 
                 def bad(sig, msg, foc=foc, focus=focus, vec=vec):
-                    prov = "nodes=%s,faces=%s,edges=%s,lon=%s,r=%g" % vec
+                    prov = "nodes=%s,faces=%s,edges=%s,lon=%s,r=%s" % vec
                     V.append({"oracle": "coords", "sig": sig, "msg": "grid %s [%s], first accesses %s, normalize %s: %s" % (case["grid"], prov, list(foc["prefix"]), foc["normalize"], msg), "focus": focus})
 
                 pool.fresh()
                 try:
-                    g, sup, P = _source(m, vec)
+                    src = _source(m, vec)
+                    if src is None:
+                        continue  # provenance combination without meaning (integer xyz next to lon/lat of the same element)
+                    g, sup, P = src
                 except Exception as e:
                     bad("c04:construct-raises:%s" % type(e).__name__, repr(e))
                     continue
@@ -263,7 +289,9 @@ def run_case(case):
                 # after the public recomputation the statement fixes only what it fixes for every grid: both systems denote the same
                 # point, ranges, finiteness.  WHICH point (supplied centre kept, or corner mean) is not the statement's business when
                 # the source supplied centres; for sources without centres nothing changes (derived = corner mean)
-                judge(g, m, vec, sup, P, False, bad, face_position=not (RECOMP in prefix and "face" in sup))
+                # once normalize_cartesian_coordinates() has been called (at whatever position), every Cartesian coordinate must have unit
+                # length from then on: the supplied ones were present when it ran, the ones derived later are unit by construction
+                judge(g, m, vec, sup, P, npos != "never", bad, face_position=not (RECOMP in prefix and "face" in sup))
                 if npos != "never":
                     # a final normalisation: every Cartesian coordinate present must now have unit length, directions unchanged
                     try:
